@@ -69,7 +69,9 @@ where
                 });
             }
 
-            if pushed_len == 0 && stored_len == real_stored_len {
+            // After reset() the emptied page index still has to reach the disk.
+            if pushed_len == 0 && stored_len == real_stored_len && !pages.has_unflushed_changes()
+            {
                 return Ok(false);
             }
 
